@@ -144,6 +144,7 @@ func (t *Tap) Counts() map[[2]int]int64 {
 type MemOptions struct {
 	QUICVisibility bool
 	Window         int // max unread bytes per stream direction; 0 = unlimited
+	Segment        int // >0: a Read returns at most this many bytes (segment-wise delivery like QUIC frames)
 	Tap            *Tap
 	Fault          *Fault
 	// OnFault is called (outside the lock) once when the fault strikes.
@@ -543,6 +544,9 @@ func (s *MemStream) Read(p []byte) (int, error) {
 			return 0, e
 		}
 		if len(q.buf) > 0 {
+			if seg := sh.opts.Segment; seg > 0 && len(p) > seg {
+				p = p[:seg]
+			}
 			n := copy(p, q.buf)
 			q.buf = q.buf[n:]
 			if len(q.buf) == 0 {
